@@ -106,6 +106,22 @@ def run(ctx):
             raise MachineryError('RenderCall_ok: %s' % r.violated)
     from . import grammargen
     stmts = list(TARGETED)
+    # every targeted SELECT again with quote characters in a constant and in a name (what a fallback / post-processing of the
+    # printed text may trip over), and common SQL functions with 0..3 arguments (dialect-specific rewrites of calls)
+    quoted = [q.replace('select ', "select 'it''s' as q1, `it's`, \"d'e\" as q2, ", 1) for q in TARGETED
+              if q.startswith('select ') and len(q) < 300]
+    fns = ['round', 'abs', 'ceil', 'floor', 'length', 'char_length', 'lower', 'upper', 'trim', 'substr', 'substring', 'concat',
+           'coalesce', 'ifnull', 'isnull', 'nullif', 'now', 'current_date', 'date', 'year', 'extract', 'cast', 'convert', 'count',
+           'sum', 'avg', 'min', 'max', 'left', 'right', 'replace', 'mod', 'power', 'sqrt', 'log', 'exp', 'greatest', 'least',
+           'date_add', 'datediff', 'json_extract', 'if', 'iif', 'to_char', 'strftime', 'rand', 'random', 'sign', 'truncate', 'trunc']
+    calls = []
+    for f_ in fns:
+        for args_ in ('', 'a', 'a, 1', 'a, 1, 2'):
+            calls.append('select %s(%s) from t' % (f_, args_))
+            calls.append('select a from t where %s(%s) > 1 order by %s(%s)' % (f_, args_, f_, args_))
+    n_t0 = len(stmts)
+    stmts += quoted + calls
+    n_targeted = len(stmts)
     acc = [s for s in accepted('mindsdb') if len(s) < 600]
     rng.shuffle(acc)
     stmts += acc[:(100000 if thorough else 250)]
@@ -120,7 +136,7 @@ def run(ctx):
         if s in seen:
             continue
         seen.add(s)
-        ds = DIALECTS if (thorough or i < len(TARGETED)) else [DIALECTS[i % len(DIALECTS)], DIALECTS[(i + 3) % len(DIALECTS)]]
+        ds = DIALECTS if (thorough or i < n_targeted) else [DIALECTS[i % len(DIALECTS)], DIALECTS[(i + 3) % len(DIALECTS)]]
         for d in ds:
             work.append((s, d))
     # trees built by the other two dialect parsers (their grammars accept shapes the mindsdb grammar does not)
